@@ -44,6 +44,8 @@ type w1Client struct {
 	User     string   `json:"user"`
 	ConnSubs []string `json:"conn_subs,omitempty"` // connect-time server-side subscriptions
 	NoPong   bool     `json:"no_pong,omitempty"`
+	Labels   map[string]string `json:"labels,omitempty"`
+	ExpireInSec int   `json:"expire_in_s,omitempty"`
 	Ops      []w1Op   `json:"ops"`
 }
 
@@ -176,6 +178,7 @@ type w1SimClient struct {
 	closedSeq     int64 // transport.Close observed
 	closeCode     uint32
 	closedAt      time.Duration
+	closeReason   string
 	refused       bool // the (simulated) transport handler saw the node shut down before NewClient
 	readerDone    bool
 	lastPos map[string]StreamPosition // last position seen per channel (for recover)
@@ -200,6 +203,7 @@ type w1World struct {
 	shutdownDone bool
 	shutdownRet  int64
 	pendingAsync int
+	csr          bool // ConnectReply.ClientSideRefresh
 	preRun       func(n *Node) // cluster world: install shared broker / controller before Run
 	seqSrc       *int64       // cluster world: one event counter for all nodes
 	nodeCfg      func(c *Config)
@@ -253,6 +257,7 @@ func (t *w1Transport) Close(d Disconnect) error {
 	t.closed = true
 	t.cl.closedSeq = t.w.next()
 	t.cl.closeCode = d.Code
+	t.cl.closeReason = d.Reason
 	t.cl.closedAt = t.w.s.Now()
 	t.w.s.Event("c%d transport close code=%d", t.cl.idx, d.Code)
 	return nil
@@ -604,7 +609,10 @@ func (w *w1World) setup() error {
 		if e.Token == "" {
 			return ConnectReply{}, DisconnectInvalidToken
 		}
-		r := ConnectReply{Credentials: &Credentials{UserID: e.Token}}
+		r := ConnectReply{Credentials: &Credentials{UserID: e.Token}, Labels: cl.spec.Labels, ClientSideRefresh: w.csr}
+		if cl.spec.ExpireInSec > 0 {
+			r.Credentials.ExpireAt = time.Now().Unix() + int64(cl.spec.ExpireInSec)
+		}
 		if len(cl.spec.ConnSubs) > 0 {
 			r.Subscriptions = map[string]SubscribeOptions{}
 			for _, ch := range cl.spec.ConnSubs {
